@@ -222,6 +222,54 @@ def real_binary_smoke(prop, scratch):
     return ok, {"cases": out}
 
 
+def real_binary_signal(scratch):
+    """C12 at the one boundary the simulator stubs (main()'s signal handler): the real binary runs
+    `sleep`, SIGTERM / SIGINT is sent to the taskctl process only (as `kill`, a service manager or a
+    CI time limit do), and the command must be gone shortly after. Returns (ok, details)."""
+    import signal as _sig
+    repo = os.environ.get("VERIF_REPO", "/repo")
+    binp = os.path.join(BUILD, "taskctl-real")
+    env = dict(os.environ, GOFLAGS="-mod=mod", GOPROXY="off", GOSUMDB="off")
+    p = subprocess.run(["go", "build", "-o", binp, "./cmd/taskctl"], cwd=repo, env=env, stdout=subprocess.PIPE, stderr=subprocess.STDOUT, text=True)
+    if p.returncode != 0:
+        return None, {"error": "build of the real binary failed", "output": p.stdout[-800:]}
+    d = os.path.join(scratch, "signal")
+    os.makedirs(d, exist_ok=True)
+    out, ok = [], True
+    for signame in ("SIGTERM", "SIGINT"):
+        dur = "3%d.%d" % (7 if signame == "SIGTERM" else 9, os.getpid() % 100000)  # a recognisable argument
+        cfg = os.path.join(d, "tasks.yaml")
+        open(cfg, "w").write("tasks:\n  slow:\n    command:\n      - sleep %s\n" % dur)
+        def sleepers():
+            ps = subprocess.run(["ps", "-eo", "pid,args"], stdout=subprocess.PIPE, text=True).stdout
+            return [int(l.split()[0]) for l in ps.splitlines() if l.strip().endswith("sleep " + dur)]
+        q = subprocess.Popen([binp, "-c", cfg, "--output", "raw", "slow"], cwd=d, stdout=subprocess.DEVNULL, stderr=subprocess.DEVNULL, stdin=subprocess.DEVNULL, start_new_session=True)
+        t0 = time.time()
+        while not sleepers() and time.time() - t0 < 10 and q.poll() is None:
+            time.sleep(0.05)
+        if not sleepers():
+            q.kill()
+            return None, {"error": "the command did not start within 10 s", "signal": signame}
+        q.send_signal(getattr(_sig, signame))
+        try:
+            rc = q.wait(timeout=20)
+        except subprocess.TimeoutExpired:
+            q.kill()
+            rc = None
+        t1 = time.time()
+        while sleepers() and time.time() - t1 < 3.5:   # the executor's own kill grace is 2 s
+            time.sleep(0.1)
+        alive = sleepers()
+        out.append({"signal": signame, "taskctl_exit": rc, "command_still_running_3s_after_taskctl_exited": bool(alive)})
+        for pid in alive:
+            try:
+                os.kill(pid, _sig.SIGKILL)
+            except OSError:
+                pass
+        ok = ok and not alive and rc is not None
+    return ok, {"cases": out}
+
+
 def load_known():
     p = os.path.join(VERIF, "known_findings.json")
     if not os.path.exists(p):
@@ -595,6 +643,25 @@ def main():
                 reported.append({"rule": "real-binary-exit-status", "replay": path, "msg": "real binary smoke failed", "count": 1})
                 exit_code = 1
 
+        signal_probe = None
+        if spec.get("real_binary_signal"):
+            sok, signal_probe = real_binary_signal(scratch)
+            if sok is None:
+                harness_errors.append({"type": "signal-probe-trouble", "detail": signal_probe})
+            elif not sok:
+                v = {"prop": prop, "rule": "signal-leaves-command-running", "msg": "real binary: after SIGTERM / SIGINT to the taskctl process it exits at once and the running command stays alive: %s" % json.dumps(signal_probe["cases"]), "seq": 0}
+                k = known_match(prop, v, known)
+                if k:
+                    known_hits[k["id"]] = (k, known_hits.get(k["id"], (k, 0))[1] + 1)
+                else:
+                    path = os.path.join(OUT, "replays", prop, "real-binary-signal.json")
+                    write_replay(path, {"property": prop, "engine": "real-binary", "violation": v, "cases": signal_probe["cases"],
+                                        "how": "build ./cmd/taskctl, run a task `sleep N`, send the signal to the taskctl pid only, look for the sleep process 3.5 s after taskctl exited"})
+                    print("violation: rule=%s %s" % (v["rule"], v["msg"][:600]), flush=True)
+                    print("VIOLATION property=%s replay=%s" % (prop, path), flush=True)
+                    reported.append({"rule": v["rule"], "replay": path, "msg": v["msg"], "count": 1})
+                    exit_code = 1
+
         for kid, (k, n) in sorted(known_hits.items()):
             print("KNOWN-FINDING: property=%s %s (%d runs)" % (prop, k["text"], n), flush=True)
 
@@ -647,6 +714,7 @@ def main():
                 "other_property_observations": others,
                 "real_vs_stub": REAL_VS_STUB,
                 "real_binary_smoke": smoke,
+                "real_binary_signal_probe": signal_probe,
                 "workers": NWORKERS,
                 "harness_errors": len(harness_errors),
                 "worker_crashes": len(all_crashes),
